@@ -183,6 +183,19 @@ func yield() {
 	}
 }
 
+// selectStart is the hook behind a select statement with several communication clauses:
+// yield, then choose the clause that is tried first from the actor's own stream.
+//
+//go:norace
+func selectStart(n int) int {
+	yield()
+	a := self()
+	if a == nil || n <= 1 {
+		return 0
+	}
+	return a.rng.Intn(n)
+}
+
 // sleepSlots lets an actor pass n of its slots (used for waits and helper pacing).
 func sleepSlots(n int) {
 	for i := 0; i < n; i++ {
